@@ -123,7 +123,7 @@ ChainStep(S, m, o, k, F) ==
         Rm(x) == RemovePosts(x, k)
         Er(x) == IF Loc(x, k) = "absent" THEN {x} ELSE ErasePosts(x, {k})
     IN
-    CASE name \in {"or_insert", "or_insert_with", "or_insert_with_key", "insert",
+    CASE name \in {"or_insert", "or_insert_with", "or_insert_with_key", "or_default", "insert",
                    "v_insert", "v_insert_hashed", "v_insert_with_hasher"} -> UNION {Ins(x) : x \in S}
       [] name \in {"o_remove", "o_remove_entry"} -> UNION {Rm(x) : x \in S}
       [] name \in {"and_replace_entry_with", "o_replace_entry_with"} /\ ~some -> UNION {Er(x) : x \in S}
